@@ -4,15 +4,20 @@ from vlib import core
 
 THEOREMS = ['closed_callers_enabled', 'cancelled_caller_enabled', 'caller_variant', 'caller_bound', 'connect_returns', 'connect_setup_returns',
             'connect_result', 'late_sends_fail', 'late_send_first_step', 'second_close', 'nothing_after_close', 'cancel_isolated',
-            'cancelled_reply_unsolicited', 'no_panic', 'monitor_sound']
+            'cancelled_reply_unsolicited', 'no_panic', 'monitor_sound',
+            'chan_caps', 'deliver_never_blocks', 'deliver_after_cancel', 'errs_never_full']
 MODULES = ['LLRP.Model.ClientLTS', 'LLRP.Model.ClientMon', 'LLRP.Proofs.ClientLTS', 'LLRP.Proofs.ClientLTS2', 'LLRP.Proofs.ClientLive', 'LLRP.Oracle.LTSim', 'LLRP.Oracle.C09']
 RULE = ('fault scripts over the real Client on net.Pipe, compared line by line with the run of the LTS: a session script (greeting, '
         'negotiation with a 1.0.1 / 1.1 reader or none, requests with replies, keep-alive, report) in which the peer vanishes at every '
         'frame boundary and inside frames (header / payload offsets; thorough: every byte offset), in both directions; Close / Shutdown / '
         'context cancellation injected at every script position with 0..4 callers blocked in each phase (before ready, queued, awaiting a '
-        'reply); observed: result class of every call and its return within the deadline, Connect\'s result, frames on the wire (nothing '
+        'reply); the peer pausing INSIDE a reply (header + part of the payload sent, the awaiting caller cancelled / the client closed, the rest sent) '
+        'followed by another exchange, a keep-alive and Connect\'s return; 1..3 KeepAlives crossing the CloseConnection while the peer has stopped reading '
+        '(write loop blocked writing CloseConnection, or the request before it); observed: result class of every call and its return within the deadline, Connect\'s result, frames on the wire (nothing '
         'after CloseConnection), results of repeated Close. distinct = distinct scripts; non-trivial = all')
 ASSUMPTIONS = [
+    'the channel capacities the step function relies on (reply channel 1, token channel 1, errs 2, sendQueue 0, ackQueue ackQueueSz) are '
+    'regenerated from the make(chan ...) expressions of reader.go (vx facts chanCaps -> Gen/Chans.lean) and checked by the theorem chan_caps',
     'the client LTS (LLRP.Model.ClientLTS) is hand-written; it is tied to reader.go by the deterministic scripts (each played under three '
     'schedules by the oracle, which answers nondet when the observation depends on the schedule)',
     'runtime residue not exhibited by the model: fairness of the Go scheduler (an enabled step is eventually taken), net.Conn unblocking a '
